@@ -429,9 +429,9 @@ func c18Shapes(chk *fw.Check) int {
 		"file":       {CRLFile: "/tmp/x y/ü.crl"},
 		"long":       {CRLDistributionPoints: []string{strings.Repeat("http://x/", 500)}},
 		// order and repetition of distribution points are part of the value (the loader tries them in this order)
-		"unsorted":           {CRLDistributionPoints: []string{"ldap://z/cn=crl", "http://primary.test/x.crl", "http://backup.test/x.crl"}},
-		"repeated":           {CRLDistributionPoints: []string{"http://b/y.crl", "http://a/x.crl", "http://b/y.crl"}},
-		"url+file+points":    {CRLUrl: "http://c/z.crl", CRLFile: "/var/crl/z.crl", CRLDistributionPoints: []string{"http://q/2.crl", "http://q/1.crl"}},
+		"unsorted":        {CRLDistributionPoints: []string{"ldap://z/cn=crl", "http://primary.test/x.crl", "http://backup.test/x.crl"}},
+		"repeated":        {CRLDistributionPoints: []string{"http://b/y.crl", "http://a/x.crl", "http://b/y.crl"}},
+		"url+file+points": {CRLUrl: "http://c/z.crl", CRLFile: "/var/crl/z.crl", CRLDistributionPoints: []string{"http://q/2.crl", "http://q/1.crl"}},
 	}
 	for mn, mi := range metaShapes {
 		for ln, lo := range locShapes {
